@@ -24,7 +24,7 @@ EXPLANATION = (
 NOT_DECIDED = ["the DSSP rule logic over arbitrary H-bond patterns (helix priority, ladder merging, bulges): combinatorial, not decided",
                "agreement with the reference DSSP program"]
 ASSUMPTIONS = ["documented codes: H B E G I T S and blank; simplified: H,G,I -> H; E,B -> E; T,S,blank -> C; non-protein residues -> 'NA'"]
-FLOORS = {"C15-R1": 14, "C15-R2": 12, "C15-R3": 6}
+FLOORS = {"C15-R1": 14, "C15-R2": 12, "C15-R3": 6, "C15-R4": 3}
 
 DP = "mdtraj/geometry/dssp.py"
 DC = "mdtraj/geometry/src/dssp.cpp"
@@ -40,6 +40,8 @@ def check(ctx):
     ctx.rule("C15-R3", "every chain_ids[i+-k] / hbonds access of the bridge and helix tests is dominated by its bounds test and same-chain test")
     cf = C.get(ctx.repo)
     ctx.analysed_files.add(DC)
+    ctx.rule("C15-R4", "the parallel and antiparallel bulge tests are mirror images with the DSSP gap thresholds (< 6 / < 3, or < 3)")
+    r4_bulge(ctx, cf)
 
     # ---------------- R1 ------------------------------------------------------------------------
     fn = cf.function(DC, "dssp")
@@ -151,3 +153,31 @@ def check(ctx):
     strides = [n for n in C.walk(ah) if n["kind"] == "ForStmt" and "stride" in C.text(C.kids(n)[1])]
     ok = bool(strides) and re.sub(r"\s", "", C.text(C.kids(strides[0])[1])) == "(stride<=5)"
     ctx.decide(ok, "C15-R3", C.line(strides[0]) if strides else C.line(ah), DC, "calculate_alpha_helices", "turn lengths 3, 4, 5", "", "stride loop bounds changed")
+
+
+def r4_bulge(ctx, cf):
+    """The two bulge tests of calculate_beta_sheets are mirror images (Kabsch & Sander: a gap of at most four residues on one strand and one on the other)."""
+    fn = cf.function(DC, "calculate_beta_sheets")
+    ctx.analysed_functions.add(DC + ":calculate_beta_sheets")
+    asg = [n for n in C.walk(fn) if n["kind"] == "BinaryOperator" and n.get("opcode") == "=" and C.ref_name(C.kids(n)[0]) == "bulge"]
+    if len(asg) != 2:
+        raise AnalysisError("calculate_beta_sheets: expected two assignments to `bulge`, found %d" % len(asg))
+    g = C.guards(fn)
+    par = anti = None
+    for a in asg:
+        facts = g.get(a["id"], [])
+        t = re.sub(r"\s", "", C.text(C.kids(a)[1]))
+        if any("BRIDGE_PARALLEL" in f and p for f, p in facts):
+            par = (a, t)
+        elif any("BRIDGE_PARALLEL" in f and not p for f, p in facts):
+            anti = (a, t)
+    if par is None or anti is None:
+        raise AnalysisError("calculate_beta_sheets: parallel / antiparallel bulge branches not recognised")
+    mirrored = par[1].replace("(jbj-jei)", "(jbi-jej)").replace("(jbj>jbi)", "(jbj<jbi)")
+    ctx.decide(mirrored == anti[1], "C15-R4", C.line(anti[0]), DC, "calculate_beta_sheets", "antiparallel bulge test = mirror image of the parallel one", "",
+               "the antiparallel bulge test %s is not the mirror image of the parallel test %s: ladders are merged (or kept apart) differently in the two sheet types" % (anti[1], par[1]))
+    for nm, (a, t) in (("parallel", par), ("antiparallel", anti)):
+        cmps = re.findall(r"\(\((\w+)-(\w+)\)(<=|<|>=|>)(\d+)\)", t)
+        got = [(op, int(v)) for _, _, op, v in cmps]
+        ctx.decide(got == [("<", 6), ("<", 3), ("<", 3)], "C15-R4", C.line(a), DC, "calculate_beta_sheets", "%s bulge gaps: < 6 with < 3 on the other strand, or < 3" % nm, "",
+                   "the %s bulge thresholds are %s; DSSP merges ladders separated by at most 4 residues on one strand and 1 on the other (gaps < 6 and < 3)" % (nm, got))
